@@ -24,8 +24,11 @@ UnionOfFronts(fr, k) == UNION {ElemsOf(fr[j]) : j \in 1..k}      \* members of f
 (* ------------------------------------------------------------------------ *)
 Fit(P, i, g) == P[i].f[g]
 
+MinOf(S) == CHOOSE m \in S : \A x \in S : m <= x
 \* the individuals with the minimal fitness for goal g
-BestFor(P, g) == {i \in Ids(P) : \A j \in Ids(P) : Fit(P, i, g) <= Fit(P, j, g)}
+BestFor(P, g) ==
+  IF P = <<>> THEN {}
+  ELSE LET mn == MinOf({Fit(P, j, g) : j \in Ids(P)}) IN {i \in Ids(P) : Fit(P, i, g) = mn}
 
 \* Pareto dominance w.r.t. the goal set U (DominanceComparator.compare = -1)
 Dominates(P, U, i, j) ==
@@ -91,23 +94,30 @@ Layers(P, U, S, budget) ==
 \* the fronts of the intended design (oneFront = FALSE) and of the code as it is
 \* (oneFront = TRUE: when front 0 already fills the configured population size the
 \* remaining individuals are put, unsorted, into a single front)
+FrontsFrom(P, U, z, pop, oneFront) ==
+  LET rest == Ids(P) \ ElemsOf(z)
+  IN IF Len(z) < pop \/ ~oneFront THEN <<z>> \o Layers(P, U, rest, pop - Len(z))
+     ELSE <<z, Asc(rest)>>
 Fronts(P, Useq, pop, coins, oneFront) ==
   IF P = <<>> THEN <<>>
-  ELSE LET z == ZeroFront(P, Useq, coins).z
-           U == ElemsOf(Useq)
-           rest == Ids(P) \ ElemsOf(z)
-       IN IF Len(z) < pop \/ ~oneFront THEN <<z>> \o Layers(P, U, rest, pop - Len(z))
-          ELSE <<z, Asc(rest)>>
+  ELSE FrontsFrom(P, ElemsOf(Useq), ZeroFront(P, Useq, coins).z, pop, oneFront)
 
 (* ------------------------------------------------------------------------ *)
 (* fast_epsilon_dominance_assignment: distance(i) = CrowdNum / Len(F)       *)
 (* ------------------------------------------------------------------------ *)
-ArgMin(P, F, g) == {i \in ElemsOf(F) : \A j \in ElemsOf(F) : Fit(P, i, g) <= Fit(P, j, g)}
-Spread(P, F, g) == \E i, j \in ElemsOf(F) : Fit(P, i, g) # Fit(P, j, g)
+FitsIn(P, F, g) == {Fit(P, j, g) : j \in ElemsOf(F)}
+ArgMin(P, F, g) == LET mn == MinOf(FitsIn(P, F, g)) IN {i \in ElemsOf(F) : Fit(P, i, g) = mn}
+Spread(P, F, g) == Cardinality(FitsIn(P, F, g)) > 1          \* maximum # minimum
 MaxOf(S) == IF S = {} THEN 0 ELSE CHOOSE m \in S : \A x \in S : x <= m
-\* numerator of the distance of member i of front F (denominator Len(F))
-CrowdNum(P, U, F, i) ==
-  MaxOf({Len(F) - Cardinality(ArgMin(P, F, g)) : g \in {h \in U : Spread(P, F, h) /\ i \in ArgMin(P, F, h)}})
+\* numerators of the distances of all members of the list F (denominator Len(F)):
+\* a member that is minimal for a goal with spread gets Len(F) - #minimal, the best of these
+CrowdNums(P, U, F) ==
+  LET S == {g \in U : Spread(P, F, g)}
+      A == [g \in S |-> ArgMin(P, F, g)]
+      C == [g \in S |-> Len(F) - Cardinality(A[g])]
+  IN [m \in DOMAIN F |-> MaxOf({C[g] : g \in {h \in S : F[m] \in A[h]}})]
+\* numerator of the distance of individual i, a member of F
+CrowdNum(P, U, F, i) == CrowdNums(P, U, F)[CHOOSE m \in DOMAIN F : F[m] = i]
 \* the contract: a distance num/den is in [0, 1)
 In01(num, den) == den > 0 /\ 0 <= num /\ num < den
 
